@@ -36,6 +36,22 @@ HOOK_COMMITS = []
 UNCLAIMED = {}
 
 PROPS = {
+    "C12": {
+        "coq_targets": ["Run/C12.v"],
+        "gen": [],
+        "classes": {},
+        "level_text": "",
+        "level_note": "",
+        "claimed": False,
+    },
+    "C04": {
+        "coq_targets": ["Run/C04.v"],
+        "gen": [],
+        "classes": {},
+        "level_text": "",
+        "level_note": "",
+        "claimed": False,
+    },
     "C08": {
         "coq_targets": ["Props/C08.v", "Run/C08.v"],
         "audit": "Audit/C08.v",
